@@ -102,9 +102,13 @@ def judge(case: dict[str, Any]) -> Judgement:
                 break
             if np.any(samples[..., ~hm] != 0.0):
                 j.fail("unhandled-column-nonzero", tag=tag, handled=hm)
+            block = samples[..., hm].copy()
+            # The consumer owns the returned array (the ensemble evaluator accumulates other samplers' output into it
+            # in place): scribbling on it must not influence what later calls return.
+            if samples.flags.writeable:
+                samples += 7.0
             if dim == 0:
                 continue
-            block = samples[..., hm]
             identical = all(np.array_equal(block[r], block[0]) for r in range(R))
             if shared and not identical:
                 j.fail("shared-not-identical", tag=tag)
@@ -139,6 +143,22 @@ def judge(case: dict[str, Any]) -> Judgement:
             free = np.ones(V, dtype=bool) if mask is None else np.array(mask, dtype=bool)
             if np.any(delta[..., ~free] != 0.0):
                 j.fail("e2e-fixed-variable-perturbed", mask=mask)
+            # two more gradient evaluations on the same evaluator: the contract holds call after call
+            for extra in (1, 2):
+                res_n = ens.calculate(x, compute_functions=True, compute_gradients=True)
+                j.transitions += 1
+                g_n = next(item for item in res_n if isinstance(item, GradientResults))
+                d_n = (np.asarray(g_n.evaluations.perturbed_variables) - x) / 0.25
+                if np.any(d_n[..., ~free] != 0.0):
+                    j.fail("e2e-fixed-variable-perturbed:later-evaluation", mask=mask, call=extra)
+                both_bounded = method in BOUNDED and (assign is None or other in BOUNDED)
+                if both_bounded and (np.any(d_n < -1.0 - 1e-12) or np.any(d_n > 1.0 + 1e-12)):
+                    j.fail("e2e-bounded-samples-out-of-range:later-evaluation", call=extra, lo=float(d_n.min()), hi=float(d_n.max()))
+                if assign is not None and dim:
+                    blk = d_n[..., hm]
+                    ident = all(np.array_equal(blk[r], blk[0]) for r in range(R))
+                    if shared and not ident:
+                        j.fail("e2e-shared-not-identical:later-evaluation", call=extra)
             if dim:
                 # the first call of an identically seeded sampler (same creation order) gives the same block
                 rng2 = default_rng(config.gradient.seed)
